@@ -62,8 +62,11 @@ def gen_case(rng):
                 if form < 0.5:
                     words.append('[%s][%s]' % (u, lab))
                     uses.append((u, norm(lab), 'full', lab))
-                elif key in VARIANTS and form < 0.75:
-                    pass      # collapsed/shortcut forms use the label as link text: handled below
+                else:
+                    # collapsed / shortcut forms use the label as the link text: the use is found again between two marker words
+                    kind = 'collapsed' if form < 0.75 else 'shortcut'
+                    words.append('%s( %s )%s' % (u, '[%s][]' % lab if kind == 'collapsed' else '[%s]' % lab, u))
+                    uses.append((u, norm(lab), kind, lab))
                 words.append('w%d' % rng.randint(0, 9))
             out.append(' '.join(words))
         return [(p1 if i == 0 else p2) + l for i, l in enumerate(out)]
@@ -116,7 +119,7 @@ def gen_case(rng):
     exp = []
     for (u, key, form, lab) in uses:
         hit = next(((d, t) for (k, d, t) in defs if k == key), None)
-        exp.append((u, hit, lab))
+        exp.append((u, hit, lab, form))
     return text, exp, len(defs)
 
 
@@ -133,7 +136,7 @@ def worker(text):
 
 def run(ctx, only=None):
     ctx.cov['rule'] = ('generated documents: definitions placed at block boundaries at top level, in quotes, list items and quoted list items, with '
-                       'duplicate and near-duplicate labels (case, inner whitespace, Unicode case folding), three title quotings, angle destinations; '
+                       'duplicate and near-duplicate labels (case, inner whitespace, Unicode case folding), full / collapsed / shortcut reference forms, three title quotings, angle destinations; '
                        'non-trivial = at least two definitions; distinct = distinct documents')
     rng = random.Random(ctx.seed)
     n = 3000 if ctx.quick() else 60000
@@ -155,8 +158,20 @@ def run(ctx, only=None):
             ctx.failing.append({'interface': 'oracle', 'input': {'text': text}, 'what': 'a link reference definition produced output of its own',
                                 'observed': out, 'kf': None})
             continue
-        for (u, hit, lab) in exp:
-            m = re.search(r'<a href="([^"]*)"(?: title="([^"]*)")?>%s</a>' % u, out)
+        for (u, hit, lab, form) in exp:
+            ctx.count('references_' + form)
+            if form != 'full':
+                mm = re.search(r'%s\( (.*?) \)%s' % (u, u), out, re.S)
+                inner = mm.group(1) if mm else None
+                m = re.fullmatch(r'<a href="([^"]*)"(?: title="([^"]*)")?>(.*)</a>', inner, re.S) if inner is not None else None
+                if m is not None and html.unescape(m.group(3)).strip() != lab.strip():
+                    m = None
+                if hit is None and m is None and inner is not None and html.unescape(inner) != ('[%s][]' % lab if form == 'collapsed' else '[%s]' % lab):
+                    ctx.failing.append({'interface': 'oracle', 'input': {'text': text, 'use': u, 'label': lab},
+                                        'what': 'a %s reference with no matching definition does not stay literal text' % form, 'observed': inner, 'kf': None})
+                    continue
+            else:
+                m = re.search(r'<a href="([^"]*)"(?: title="([^"]*)")?>%s</a>' % u, out)
             if hit is None:
                 if m is not None:
                     ctx.failing.append({'interface': 'oracle', 'input': {'text': text, 'use': u}, 'what': 'a reference without matching definition became a link',
@@ -165,11 +180,11 @@ def run(ctx, only=None):
                 got = (html.unescape(m.group(1)), html.unescape(m.group(2) or '')) if m else None
                 if got != (hit[0], hit[1]):
                     ctx.failing.append({'interface': 'oracle', 'input': {'text': text, 'use': u, 'label': lab},
-                                        'what': 'reference does not resolve to the first matching definition in document order',
+                                        'what': 'a %s reference does not resolve to the first matching definition in document order' % form,
                                         'observed': got, 'expected': hit, 'kf': None})
     ctx.cov['definitions_per_document'] = {str(k): v for k, v in sorted(placements.items())}
     ctx.count('distinct_nontrivial', len(nontriv))
-    ctx.sample({'text': cases[0][0], 'expected(use, (dest,title), label)': cases[0][1], 'html': outs[0][0]})
+    ctx.sample({'text': cases[0][0], 'expected(use, (dest,title), label, form)': cases[0][1], 'html': outs[0][0]})
     # model vs implementation on the same documents and on spec-derived ones
     xdoc.run(ctx, texts[:1500 if ctx.quick() else 20000] + inputs.spec_texts(), cfgs=(0, 2))
 
